@@ -46,7 +46,7 @@ def run(ctx):
                 ctx.violation("c19_closed_%d.txt" % nviol, "%s\n\nscript:\n%s\n\nimplementation:\n%s\nreplay: echo '<script>' | /verif/build/plain/jlsrun prog /tmp\n" % (bad, script, a[:3000]), bad)
     # (b) repaired images: the second open modifies nothing and answers the same
     C03 = importlib.import_module("C03")
-    nprog, per = (6, 200) if ctx.tier == "quick" else (30, 1500)
+    nprog, per = (6, 200) if ctx.tier == "quick" else (12, 800)
     icases, parsed, spec_scripts, model = C03.run_images(ctx, nprog, per)
     for (script, meta), r in zip(icases, parsed):
         k, j, kind = meta["point"]
